@@ -1,3 +1,4 @@
 SPECIFICATION Spec
 INVARIANTS EncTotal EmitCases
 CHECK_DEADLOCK FALSE
+CONSTANT GhostLen = 2
